@@ -109,9 +109,9 @@ func cmdVerify(args []string) int {
 	E.tier = *tier
 	E.verbose = *verbose
 	E.keepScripts = *keep
-	E.timeoutS = 20
+	E.timeoutS = 40
 	if *tier == "thorough" {
-		E.timeoutS = 90
+		E.timeoutS = 120
 	}
 	if *tmo > 0 {
 		E.timeoutS = *tmo
